@@ -6,7 +6,7 @@ LEVEL = "proof"
 TEXT = ("The gate's truth table (major 0: same major.minor; major >= 1: same major and minor not greater; patch/prerelease/build never matter; "
         "no version or non-semver build skips the check; a leading v is a parse error) is proved for ALL parsed versions with unbounded numbers; "
         "the parser model of x/mod/semver and the validator are run against the real YAML path + validator on a grid of (B, V) pairs, and the "
-        "implementation's verdicts are judged by an independent table written from docs/VERSION.md.")
+        "implementation's verdicts are judged by an independent table written from docs/VERSION.md. main.go's handling of the linker-provided version is covered: pin_main_normalisation (regenerated condition and rewriting statement), linker_v_stripped / linker_gate (a leading v is dropped whenever the rest is a semantic version, whatever suffix it carries) and the CLI linked with -X main.version=… run end to end.")
 TECHNIQUE = "Lean 4 theorems over the version-gate model (case analysis, omega) + model-vs-implementation correspondence on a (B,V) grid"
 LEAN_PROPS = ["C18"]
 TRUSTED = ["golang.org/x/mod/semver is modelled (Model/Semver.parse), tied by the correspondence run"]
